@@ -1,6 +1,7 @@
 import GeoVerif.Model.MCRows
 import GeoVerif.Lemmas.C14
 import GeoVerif.Lemmas.MCRows
+import GeoVerif.Generated.MCWrite
 import Mathlib.Data.List.Perm.Basic
 import Mathlib.Tactic.Linarith
 import Mathlib.Tactic.Positivity
@@ -254,5 +255,25 @@ theorem row_text_aligned (outs report : List Line) (tail : List Char) (hne : out
 theorem parse_row_example :
     parseRowCells "3.62e+14, 215.74, (Formation Porosity:14.099034815472761;Reservoir Area:71.8093735367408;)".toList
       = ["3.62e+14".toList, "215.74".toList] := by decide +kernel
+
+/-! ## rows are never torn — without relying on the file lock (which is advisory and racy, see F24) -/
+
+/-- appended rows stay whole under ANY order of the writes, with or without mutual exclusion: the file is the header followed by the rows, each intact -/
+theorem appended_rows_whole (header : List Char) (rows : List (List Char)) :
+    rows.foldl appendWrite header = header ++ rows.flatten := by
+  induction rows generalizing header with
+  | nil => simp
+  | cons r rs ih => simp [List.foldl_cons, appendWrite, ih, List.append_assoc]
+
+/-- whereas two workers that both looked at the end of the file before either wrote overwrite each other when they write at the position they saw
+(kernel-evaluated witness: the second row replaces the first, a fragment of the longer one is left) -/
+theorem positioned_writes_tear :
+    writeAt (writeAt "h\n".toList 2 "1.50, (a:1;)\n".toList) 2 "2.5, (a:2;)\n".toList = "h\n2.5, (a:2;)\n\n".toList := by decide +kernel
+
+/-- the code does write each row as ONE flushed append: facts read off `work_package` by the translator on every run (the results file is opened in
+append mode under the lock, written once per row, flushed, and not otherwise read or repositioned) — so `appended_rows_whole` applies to it -/
+theorem row_write_is_single_flushed_append :
+    GeoVerif.Generated.mcLockerMode = "a" ∧ GeoVerif.Generated.mcWritesPerRow = 1 ∧ 1 ≤ GeoVerif.Generated.mcFlushes
+    ∧ GeoVerif.Generated.mcOtherFileUses = 0 := by decide
 
 end GeoVerif.C14
